@@ -3,6 +3,7 @@ CONSTANTS
   AckMode = "shaped"
   ThrMode = "fixed"
   EmptyMode = "fixed"
+  RstMode = "pinned"
   CfgSet <- CloseCfgs
   SameCfg = TRUE
   Openers = {"A"}
